@@ -299,6 +299,16 @@ SPECIAL = [
     (["x", "st"], "len([x, st, x]) > 100 and (x, st) is None", {"x": 1, "st": "STRICTEQ"}),
     (["x", "we"], "[we, x][1] > 100", {"x": 1, "we": "WEIRDEQ"}),
     (["x", "we"], "len((x, we, [we])) > 100", {"x": 1, "we": "WEIRDEQ"}),
+    # a module-level variable named like a built-in is a variable
+    (None, "x > format", {"x": 1}),
+    (None, "format < 0 or GL + format < x", {"x": 1}),
+    # a part of a comprehension that Python never evaluates (nothing is iterated) and that cannot be re-computed
+    (["h", "xs", "y"], "any(h(y) > e for e in xs)", {"h": "RAISER:custom", "xs": [], "y": 1}),
+    (["h", "xs", "y"], "[e for e in xs if h(y)] == [99]", {"h": "RAISER:assertion", "xs": [], "y": 1}),
+    (["h", "xs", "y"], "not all(h(e) for e in xs if e > 100)", {"h": "RAISER:oserror", "xs": [1, 2], "y": 1}),
+    (["h", "xs", "y"], "len({e for e in xs if e > 100 if h(y)}) > 0", {"h": "RAISER:stopiteration", "xs": [1], "y": 1}),
+    (["h", "xs", "y"], "any(e > h(y) for e in xs)", {"h": "RAISER:violation", "xs": [], "y": 1}),
+    (["h", "xs", "y"], "{e: h(y) for e in xs} != {}", {"h": "RAISER:keyerror", "xs": [], "y": 1}),
     # calls / subscripts whose value is None are values like any other
     (None, "d.get('zz') is not None and x > 100", {"d": {"a": 1}}),
     (["xs", "x"], "xs[0] is not None and xs[1] > 100", {"xs": [None, 1], "x": 1}),
